@@ -54,8 +54,11 @@ const (
 	auxBase  = 30 // xref streams, object streams, indirect lengths
 )
 
-func Run(e *core.Env) {
-	t := e.T
+// revHook is called after each appended revision; returning false stops.
+type revHook func(img []byte, model map[uint32]*slot, nObj uint32, custom pdf.Dict, id pdf.Array, ri int, version string, last bool, sig []string) bool
+
+// generate draws a revision history and serialises it revision by revision.
+func generate(t *tape.Tape, hook revHook, skip func(string)) (img []byte, sigParts []string, junkLen int, nRev int, lastKind revwriter.SectionKind, ok bool) {
 	style := revwriter.NewStyle(t)
 	version := tape.Pick(t, "version", "1.7", "1.5", "2.0", "1.4", "1.6")
 	oldVersion := version == "1.4"
@@ -69,16 +72,15 @@ func Run(e *core.Env) {
 	}
 	f := revwriter.NewFile(junk, version, style)
 	nObj := 1 + t.Draw("nobj", 6)
-	nRev := 1 + t.Draw("nrev", 4)
+	nRev = 1 + t.Draw("nrev", 4)
 	model := map[uint32]*slot{}
 	aux := uint32(auxBase)
-	var sigParts []string
 	opts := &gen.Opts{MaxDepth: 2}
 	for n := uint32(1); n <= uint32(nObj); n++ {
 		opts.Refs = append(opts.Refs, pdf.NewReference(n, 0), pdf.NewReference(n, 1))
 	}
 	id := pdf.Array{pdf.String("0123456789abcdef"), pdf.String("fedcba9876543210")}
-	lastKind := revwriter.Table
+	lastKind = revwriter.Table
 
 	for ri := 0; ri < nRev; ri++ {
 		rl := fmt.Sprintf("r%d", ri)
@@ -209,21 +211,45 @@ func Run(e *core.Env) {
 		rev.Trailer = trailer
 		sigParts = append(sigParts, fmt.Sprintf("%d:%s", rev.Kind, fate))
 		if !f.Append(rev, style) {
-			e.Skip("history not renderable under the constraints")
-			return
+			skip("history not renderable under the constraints")
+			return nil, sigParts, len(junk), nRev, lastKind, false
 		}
-		img := f.Bytes()
-		e.Steps(1)
-		if ri == nRev-1 || t.Bool(rl+".checknow", 2, 3) {
-			if !check(e, t, img, model, uint32(nObj), custom, id, ri, version) {
-				e.Note("history", sigParts)
-				e.Note("image", fmt.Sprintf("%q", truncate(img, 3000)))
-				return
+		img = f.Bytes()
+		checkNow := ri == nRev-1 || t.Bool(rl+".checknow", 2, 3)
+		if hook != nil && checkNow {
+			if !hook(img, model, uint32(nObj), custom, id, ri, version, ri == nRev-1, sigParts) {
+				return img, sigParts, len(junk), nRev, lastKind, false
 			}
 		}
 	}
+	return img, sigParts, len(junk), nRev, lastKind, true
+}
+
+// Image draws a history and returns the final image (base documents for the
+// corruption walker of C05: /Prev chains, hybrid sections, bytes before the
+// header).
+func Image(t *tape.Tape) ([]byte, string, bool) {
+	img, sig, junk, _, _, ok := generate(t, nil, func(string) {})
+	return img, fmt.Sprintf("history %v junk=%d", sig, junk), ok
+}
+
+func Run(e *core.Env) {
+	t := e.T
+	hook := func(img []byte, model map[uint32]*slot, nObj uint32, custom pdf.Dict, id pdf.Array, ri int, version string, last bool, sig []string) bool {
+		e.Steps(1)
+		if !check(e, t, img, model, nObj, custom, id, ri, version) {
+			e.Note("history", sig)
+			e.Note("image", fmt.Sprintf("%q", truncate(img, 3000)))
+			return false
+		}
+		return true
+	}
+	_, sigParts, junkLen, nRev, lastKind, ok := generate(t, hook, e.Skip)
+	if !ok {
+		return
+	}
 	e.Note("history", sigParts)
-	e.Sig(sigParts, len(junk) > 0)
+	e.Sig(sigParts, junkLen > 0)
 	if nRev >= 2 || lastKind != revwriter.Table {
 		e.Nontrivial()
 	}
